@@ -10,12 +10,16 @@ const CS_B: [u8; 32] = [0x0B; 32];
 fn srcs() -> Vec<SourceS> {
     vec![
         full_src(201),
-        SourceS { tag: 202, checksum: None, has_sudo: true, has_reply: true, has_migrate: false },
-        SourceS { tag: 203, checksum: None, has_sudo: false, has_reply: false, has_migrate: true },
+        SourceS { tag: 202, checksum: None, has_sudo: true, has_reply: true, has_migrate: false, wrapped: false },
+        SourceS { tag: 203, checksum: None, has_sudo: false, has_reply: false, has_migrate: true, wrapped: false },
         // two different codes with the SAME explicit checksum: their salted addresses coincide
-        SourceS { tag: 204, checksum: Some(CS_A.to_vec()), has_sudo: true, has_reply: true, has_migrate: true },
-        SourceS { tag: 205, checksum: Some(CS_A.to_vec()), has_sudo: true, has_reply: true, has_migrate: true },
-        SourceS { tag: 206, checksum: Some(CS_B.to_vec()), has_sudo: true, has_reply: false, has_migrate: true },
+        SourceS { tag: 204, checksum: Some(CS_A.to_vec()), has_sudo: true, has_reply: true, has_migrate: true, wrapped: false },
+        SourceS { tag: 205, checksum: Some(CS_A.to_vec()), has_sudo: true, has_reply: true, has_migrate: true, wrapped: false },
+        SourceS { tag: 206, checksum: Some(CS_B.to_vec()), has_sudo: true, has_reply: false, has_migrate: true, wrapped: false },
+        // registered through ContractWrapper: entry points they lack are simply not attached
+        wrapped_src(104, true, true, true),
+        wrapped_src(105, true, true, false),
+        wrapped_src(107, false, false, true),
     ]
 }
 
